@@ -34,7 +34,7 @@ theorem enc_any_j5 (env : Env) (O : Oracle) (f : Nat) (tn proto j5 : Bytes) (ik 
 
 /-- what `valOk` says about a j5 `Any` value -/
 theorem valOk_any (env : Env) (O : Oracle) (v : PVal) (h : valOk env O (.any false) v = true) :
-    ∃ tn j5 V, v = .anyJ5 tn [] j5 .none "" (.msg []) ∧ env.noAny = false ∧ isValidUtf8 tn = true ∧
+    ∃ tn j5 V, v = .anyJ5 tn [] j5 .none "" (.msg []) ∧ env.noJ5Any = false ∧ isValidUtf8 tn = true ∧
       j5 ≠ [] ∧ O.chunk j5 = some V ∧ V.render = j5 ∧ V.complete = true ∧ V.depth ≤ 10000 := by
   cases v with
   | anyJ5 tn proto j5 ik iroot inner =>
